@@ -192,7 +192,7 @@ Definition chk_squant (mins : zvec) (es : zvec) (v : zvec) (codes : zvec) (deq_b
     configuration, seed and operations (same RNG => same levels => same graph) and replays the
     twin's history [ops] in the model.  [pre]: 0 = none (scalar, and any untrained/None index with
     mults = [] ), 1 = ranking by [keys] (binary: id |-> hamming distance to the query).
-    [impl] = None: the search panicked. [cmp_dist] = false: ids only (binary without rescoring
+    [impl] = None: the search panicked (never, since dc6fd9d). [cmp_dist] = false: ids only (binary without rescoring
     reports the hamming estimate, not a distance). *)
 Definition key_of (keys : list (Z * Z)) (i : Z) : option Z :=
   match find (fun p => fst p =? i) keys with Some p => Some (snd p) | None => None end.
@@ -203,22 +203,23 @@ Definition chk_qsearch (mt : metric) (c : config) (ops : list hop) (q : zvec) (k
     (n =? zlen ops) &&
     existsb (fun s =>
       let p := if pre =? 0 then pre_none else pre_rank Z.leb (key_of keys) in
-      match qsearch (zext mt) (zdist mt) s q k ef mults resc p, impl with
-      | QPanic, None => true
-      | QOk r, Some i => if cmp_dist then res_ok mt r i else list_eqb Z.eqb (map fst r) (map fst i)
-      | _, _ => false
+      match impl with
+      | Some i => let r := qsearch (zext mt) (zdist mt) s q k ef mults resc p in
+                  if cmp_dist then res_ok mt r i else list_eqb Z.eqb (map fst r) (map fst i)
+      | None => false          (* a panic: the repaired code (dc6fd9d) never panics *)
       end) ss
   end.
-(** finding class C18-K3: the candidate count k x rescore_factor (x 2 for binary) does not fit a usize *)
-Definition k_qoverflow (k : Z) (mults : list Z) (resc : bool) : bool :=
-  resc && match num_candidates k mults with None => true | Some _ => false end.
+(** class of the repaired defect C18-K3: before dc6fd9d the candidate count k x rescore_factor (x 2 for
+    binary) did not fit a usize *)
+Definition k_qoverflow_pre (k : Z) (mults : list Z) (resc : bool) : bool :=
+  resc && match num_candidates_pre k mults with None => true | Some _ => false end.
 
 (** ---- brute_force_knn on distances that may be NaN ([None]); keys are order-preserving
     integer images of the f32 distances ---- *)
 Definition okey_eqb (a b : option Z) : bool := opt_eqb Z.eqb a b.
 Definition chk_brute_keys (xs : list (Z * option Z)) (k : Z) (impl : list (Z * option Z)) : bool :=
-  list_eqb (fun a b => (fst a =? fst b) && okey_eqb (snd a) (snd b)) (brute_small lt_pc xs k) impl.
-(** finding class C18-K2: some distance is NaN *)
+  list_eqb (fun a b => (fst a =? fst b) && okey_eqb (snd a) (snd b)) (brute_small lt_of xs k) impl.
+(** class of the repaired defect C18-K2 (before c04d862 the comparator was [lt_pc]): some distance is NaN *)
 Definition k_nan_distance (xs : list (Z * option Z)) : bool := has_nan xs.
 
 (** ---- VectorScanOperator / VectorJoinOperator output loops ---- *)
@@ -226,12 +227,12 @@ Definition zz_eqb (a b : Z * Z) : bool := (fst a =? fst b) && (snd a =? snd b).
 Definition chk_scan (cap : nat) (res : list (Z * Z)) (impl : list (list (Z * Z))) : bool :=
   list_eqb (list_eqb zz_eqb) (scan_chunks cap res) impl.
 Definition jrow_eqb (a b : Z * (Z * Z)) : bool := (fst a =? fst b) && zz_eqb (snd a) (snd b).
-(** [calls] next() calls were made; [fin] = the last one returned None; [bad] = the harness saw
-    the operator's output differ from the join.  The finding class must say exactly that. *)
-Definition chk_join (cap calls : nat) (rows : list (Z * list (Z * Z))) (impl : list (list (Z * (Z * Z)))) (fin bad : bool) : bool :=
-  match jrun calls cap (jinit rows) with
-  | (chs, f) => list_eqb (list_eqb jrow_eqb) chs impl && Bool.eqb f fin && Bool.eqb (k_join_boundary cap rows) bad
+(** [calls] next() calls were made; [fin] = the last one returned None *)
+Definition chk_join (cap calls : nat) (rows : list (Z * list (Z * Z))) (impl : list (list (Z * (Z * Z)))) (fin : bool) : bool :=
+  match jrun calls cap (jinit rows) false with
+  | (chs, f) => list_eqb (list_eqb jrow_eqb) chs impl && Bool.eqb f fin
   end.
+(** class of the repaired defect C18-K4 *)
 Definition k_join (cap : nat) (rows : list (Z * list (Z * Z))) : bool := k_join_boundary cap rows.
 
 (** ---- scalar quantiser distances on the exact grid ---- *)
